@@ -216,6 +216,8 @@ def run_check(pid, tier, seed, args, t0):
     for ident in api.ORDER:
         c = api.REGISTRY[ident]
         if pid in c.props:
+            if c.skip:
+                trusted.append("contract drafted but NOT discharged (excluded from the counts): %s -- %s" % (ident, c.skip))
             if c.trusted:
                 trusted.append("trusted contract (assumed, body not verified): " + ident)
             for txt, sp in c.callees.items():
